@@ -284,6 +284,10 @@ def record_extra(rng, g, k, D, N, C, x, y, m) -> List[List[dict]]:
                 evs.append(dict(ev="ax", ax="equals", loss=name, D=D, N=N, C=C, v1=cap(cls(**kw)(x, y)), v2=cap(base / nrm), what=f"norm from {what}"))
             evs.append(dict(ev="ax", ax="equals", loss=name, D=D, N=N, C=C, v1=cap(cls(norm=False)(x, y)), v2=cap(base), what="norm=False"))
             evs.append(dict(ev="ax", ax="equals", loss=name, D=D, N=N, C=C, v1=cap(cls(norm=4.0)(x, y)), v2=cap(base / 4.0), what="norm=4"))
+            # an explicit factor wins over images given as well - also the factor ONE, in every numeric form
+            for fname, fval in (("0.5", 0.5), ("1.0", 1.0), ("1", 1), ("tensor(1.)", torch.tensor(1.0)), ("tensor([2.])", torch.tensor([2.0]))):
+                evs.append(dict(ev="ax", ax="equals", loss=name, D=D, N=N, C=C, v1=cap(cls(source=s_img, target=t_img, norm=fval)(x, y)), v2=cap(base / float(fval)),
+                                what=f"explicit norm={fname} with source and target images given"))
         except Exception as ex:
             evs.append(dict(ev="ax", ax="accepted", loss=name, D=D, N=N, C=C, exc=True, what="module with norm", err=f"{type(ex).__name__}: {ex}"[:120]))
         trace(name, evs)
